@@ -120,6 +120,10 @@ if [ ! -x "$OUT" ]; then
   elif grep -qx getentropy "$T/imports.txt"; then TRNG_FLAVOR=getentropy
   elif grep -qx syscall "$T/imports.txt"; then TRNG_FLAVOR=syscall
   else TRNG_FLAVOR=devurandom; fi
+  # dictionary of the constants the code compares with or stores (immediates of 5+ hex digits and .rodata words):
+  # messages, keys, salts and fed data occasionally carry them (and their complements / byte swaps) at block starts
+  ( cd "$T/o" && { objdump -d --no-show-raw-insn *.o | grep -oE '\$0x[0-9a-f]{5,16}' | tr -d '$'; \
+      objdump -s -j .rodata -j .rodata.cst4 -j .rodata.cst8 -j .rodata.cst16 *.o 2>/dev/null | awk '/^ [0-9a-f]+ /{for(i=2;i<=5;i++) if (length($i)==8) print "0x" substr($i,7,2) substr($i,5,2) substr($i,3,2) substr($i,1,2)}'; } | grep -E '^0x[0-9a-f]+$' | sort -u | head -400 ) > "$T/dict.txt" || true
   # symbol report of the untouched objects (C19 side check) before any renaming
   ( cd "$T/o" && for f in *.o; do nm "$f" | awk -v f="$f" '$2 ~ /^[bBdDsScC]$/ {print f, $2, $3}'; done ) > "$T/writable_symbols.txt" || true
   # seams at the libc boundary: OS entropy/file calls and the allocator, in every library object
